@@ -230,8 +230,10 @@ public:
             auto& ps = slots[idx(t)];
             auto& slot = ps.data;
             auto& mark = ps.mark;
+            PHOTON_VERIF_SP(PHOTON_VERIF_SP_ATOMIC, this);
             if (mark.load(std::memory_order_acquire) == last_turn_read(t)) {
                 if (tail.compare_exchange_strong(t, t + 1)) {
+                    PHOTON_VERIF_SP(PHOTON_VERIF_SP_ATOMIC, this);
                     slot = x;
                     mark.store(this_turn_write(t), std::memory_order_release);
                     return true;
@@ -253,8 +255,10 @@ public:
             auto& ps = slots[idx(h)];
             auto& slot = ps.data;
             auto& mark = ps.mark;
+            PHOTON_VERIF_SP(PHOTON_VERIF_SP_ATOMIC, this);
             if (mark.load(std::memory_order_acquire) == this_turn_write(h)) {
                 if (head.compare_exchange_strong(h, h + 1)) {
+                    PHOTON_VERIF_SP(PHOTON_VERIF_SP_ATOMIC, this);
                     x = slot;
                     mark.store(this_turn_read(h), std::memory_order_release);
                     return true;
@@ -274,7 +278,9 @@ public:
     void send(const T& x) {
         static_assert(std::is_base_of<PauseBase, Pause>::value,
                       "Pause should be derived by PauseBase");
+        PHOTON_VERIF_SP(PHOTON_VERIF_SP_ATOMIC, this);
         auto const t = tail.fetch_add(1);
+        PHOTON_VERIF_SP(PHOTON_VERIF_SP_ATOMIC, this);
         auto& ps = slots[idx(t)];
         auto& slot = ps.data;
         auto& mark = ps.mark;
@@ -288,7 +294,9 @@ public:
     T recv() {
         static_assert(std::is_base_of<PauseBase, Pause>::value,
                       "Pause should be derived by PauseBase");
+        PHOTON_VERIF_SP(PHOTON_VERIF_SP_ATOMIC, this);
         auto const h = head.fetch_add(1);
+        PHOTON_VERIF_SP(PHOTON_VERIF_SP_ATOMIC, this);
         auto& ps = slots[idx(h)];
         auto& slot = ps.data;
         auto& mark = ps.mark;
@@ -336,6 +344,7 @@ public:
             rh = head.load(std::memory_order_acquire);
             auto wn = std::min(n, Base::capacity - (wt - rh));
             if (wn == 0) return 0;
+            PHOTON_VERIF_SP(PHOTON_VERIF_SP_ATOMIC, this);
             if (!tail.compare_exchange_strong(wt, wt + wn,
                                               std::memory_order_acq_rel))
                 continue;
@@ -350,8 +359,10 @@ public:
                        sizeof(T) * (wn - part_length));
             }
             auto wh = wt;
+            PHOTON_VERIF_SP(PHOTON_VERIF_SP_ATOMIC, this);
             while (!write_head.compare_exchange_strong(
                 wh, wt + wn, std::memory_order_acq_rel))
+                PHOTON_VERIF_SP_EXPR(PHOTON_VERIF_SP_BUSYWAIT, this),
                 wh = wt;
             return wn;
         }
@@ -366,6 +377,7 @@ public:
             wh = write_head.load(std::memory_order_acquire);
             auto rn = std::min(n, wh - rt);
             if (rn == 0) return 0;
+            PHOTON_VERIF_SP(PHOTON_VERIF_SP_ATOMIC, this);
             if (!read_tail.compare_exchange_strong(rt, rt + rn,
                                                    std::memory_order_acq_rel))
                 continue;
@@ -380,8 +392,10 @@ public:
                        sizeof(T) * (rn - part_length));
             }
             auto rh = rt;
+            PHOTON_VERIF_SP(PHOTON_VERIF_SP_ATOMIC, this);
             while (!head.compare_exchange_strong(rh, rt + rn,
                                                  std::memory_order_acq_rel))
+                PHOTON_VERIF_SP_EXPR(PHOTON_VERIF_SP_BUSYWAIT, this),
                 rh = rt;
             return rn;
         }
@@ -473,6 +487,7 @@ public:
         auto t = tail.load(std::memory_order_acquire);
         if (unlikely(Base::check_full(head, t))) return false;
         slots[idx(t)] = x;
+        PHOTON_VERIF_SP(PHOTON_VERIF_SP_ATOMIC, this);
         tail.store(t + 1, std::memory_order_release);
         return true;
     }
@@ -481,6 +496,7 @@ public:
         auto h = head.load(std::memory_order_acquire);
         if (unlikely(Base::check_empty(h, tail))) return false;
         x = slots[idx(h)];
+        PHOTON_VERIF_SP(PHOTON_VERIF_SP_ATOMIC, this);
         head.store(h + 1, std::memory_order_release);
         return true;
     }
@@ -631,6 +647,7 @@ struct SendBackoff {
                                std::atomic<uint64_t>& send_waiters,
                                std::atomic<uint64_t>& send_pending) {
         std::atomic_thread_fence(std::memory_order_seq_cst);
+        PHOTON_VERIF_SP(PHOTON_VERIF_SP_ATOMIC, &send_waiters);
         auto cur_waiters = send_waiters.load(std::memory_order_seq_cst);
         if (cur_waiters == 0) return;
         auto sp = send_pending.load(std::memory_order_acquire);
@@ -657,6 +674,7 @@ struct SendBackoff {
                              std::atomic<uint64_t>& send_waiters,
                              std::atomic<uint64_t>& send_pending) {
         if (!push_fn(x)) {
+            PHOTON_VERIF_SP(PHOTON_VERIF_SP_ATOMIC, &send_waiters);
             send_waiters.fetch_add(1, std::memory_order_seq_cst);
             DEFER(send_waiters.fetch_sub(1, std::memory_order_seq_cst));
             Timeout yield_timeout(yield_usec);
@@ -751,6 +769,7 @@ public:
         // simultaneously miss the consumer's idler++ AND have the consumer
         // miss our push.
         std::atomic_thread_fence(std::memory_order_seq_cst);
+        PHOTON_VERIF_SP(PHOTON_VERIF_SP_ATOMIC, this);
         auto cur_idler = idler.load(std::memory_order_seq_cst);
         if (cur_idler == 0) return;
 
@@ -783,6 +802,7 @@ public:
         // yield once if failed, so photon::now will be updated
         photon::thread_yield();
         // seq_cst on idler is the other half of the Dekker barrier (see send).
+        PHOTON_VERIF_SP(PHOTON_VERIF_SP_ATOMIC, this);
         idler.fetch_add(1, std::memory_order_seq_cst);
         DEFER(idler.fetch_sub(1, std::memory_order_seq_cst));
         Timeout yield_timeout(max_yield_usec);
@@ -876,6 +896,7 @@ public:
         // following idler load, paired with the seq_cst RMW on `idler`
         // in recv().
         std::atomic_thread_fence(std::memory_order_seq_cst);
+        PHOTON_VERIF_SP(PHOTON_VERIF_SP_ATOMIC, this);
         auto cur_idler = idler.load(std::memory_order_seq_cst);
         if (cur_idler == 0) return;
 
@@ -907,6 +928,7 @@ public:
         // yield once if failed, so photon::now will be updated
         photon::thread_yield();
         // seq_cst on idler is the other half of the Dekker barrier (see send).
+        PHOTON_VERIF_SP(PHOTON_VERIF_SP_ATOMIC, this);
         idler.fetch_add(1, std::memory_order_seq_cst);
         DEFER(idler.fetch_sub(1, std::memory_order_seq_cst));
         Timeout yield_timeout(max_yield_usec);
